@@ -144,11 +144,12 @@ impl ApproxModel for Sc {
     open spec fn ulps_eq_default_spec(a: Sc, b: Sc) -> bool { s_ulps_eq_default(a, b) }
     open spec fn abs_diff_eq_default_spec(a: Sc, b: Sc) -> bool { s_abs_diff_eq_default(a, b) }
 }
-#[verifier::external_body] pub fn ulps_default_eq<T: ApproxModel>(a: &T, b: &&T) -> (r: bool) ensures r == T::ulps_eq_default_spec(*a, **b) { unimplemented!() }
-#[verifier::external_body] pub fn ulps_default_ne<T: ApproxModel>(a: &T, b: &&T) -> (r: bool) ensures r == !T::ulps_eq_default_spec(*a, **b) { unimplemented!() }
-#[verifier::external_body] pub fn abs_diff_default_eq<T: ApproxModel>(a: &T, b: &&T) -> (r: bool) ensures r == T::abs_diff_eq_default_spec(*a, **b) { unimplemented!() }
-#[verifier::external_body] pub fn abs_diff_default_ne<T: ApproxModel>(a: &T, b: &&T) -> (r: bool) ensures r == !T::abs_diff_eq_default_spec(*a, **b) { unimplemented!() }
+#[verifier::external_body] pub fn ulps_default_eq<T: ApproxModel>(a: &T, b: &T) -> (r: bool) ensures r == T::ulps_eq_default_spec(*a, *b) { unimplemented!() }
+#[verifier::external_body] pub fn ulps_default_ne<T: ApproxModel>(a: &T, b: &T) -> (r: bool) ensures r == !T::ulps_eq_default_spec(*a, *b) { unimplemented!() }
+#[verifier::external_body] pub fn abs_diff_default_eq<T: ApproxModel>(a: &T, b: &T) -> (r: bool) ensures r == T::abs_diff_eq_default_spec(*a, *b) { unimplemented!() }
+#[verifier::external_body] pub fn abs_diff_default_ne<T: ApproxModel>(a: &T, b: &T) -> (r: bool) ensures r == !T::abs_diff_eq_default_spec(*a, *b) { unimplemented!() }
 // ---- rule R9: panic entry points
 #[verifier::external_body] pub fn vpanic() -> ! requires false { loop {} }
 #[verifier::external_body] pub fn diverge() -> ! ensures false { loop {} }
+#[verifier::external_body] pub fn vpanic_iff(Ghost(violated): Ghost<bool>) -> ! requires violated ensures false { loop {} }
 } // verus!
